@@ -1,34 +1,33 @@
 #![no_main]
 //! C03 / C11 oracle inside a coverage-guided target: every Zinc entry point must return Ok or Err
-//! (panic / fuel exhaustion = violation), and accepted text must reach a re-encoding fixed point.
-use hvlib::gen::readers::ReaderPlan;
-use hvlib::props::c03;
+//! (panic / fuel exhaustion = violation), and accepted text must reach a re-encoding fixed point
+//! and decode the same from a chunked reader. HV_FUZZ_PROP selects one property's oracle.
+use hvlib::props::{c03, c11};
 use hvlib::runner::{install_quiet_panic_hook, Rec, Verdict};
 use libfuzzer_sys::fuzz_target;
-use std::sync::Once;
+use std::sync::OnceLock;
 
-static INIT: Once = Once::new();
+static PROP: OnceLock<String> = OnceLock::new();
 
 fuzz_target!(|data: &[u8]| {
-    INIT.call_once(install_quiet_panic_hook);
+    let prop = PROP.get_or_init(|| {
+        install_quiet_panic_hook();
+        std::env::var("HV_FUZZ_PROP").unwrap_or_default()
+    });
     if data.len() > 4096 {
         return;
     }
     let mut rec = Rec::new();
     rec.on = false;
-    // first byte picks the reader plan so that chunked / interrupted reads are reached as well
-    let (plan, body) = match data.split_first() {
-        Some((b, rest)) => (
-            ReaderPlan { chunks: if b & 1 == 1 { vec![1 + (b >> 4)] } else { vec![] }, interrupt_every: (b >> 1) & 3, fail_at: None, fail_forever: false },
-            rest,
-        ),
-        None => (ReaderPlan::default(), data),
-    };
-    if let Verdict::Fail { sig, msg } = c03::check_bytes(body, &plan, &mut rec, false) {
-        panic!("VIOLATION {sig}: {msg}");
+    let (plan, body) = c03::split_fuzz_input(data);
+    if prop.is_empty() || prop == "C03" {
+        if let Verdict::Fail { sig, msg } = c03::check_bytes(body, &plan, &mut rec, false) {
+            panic!("VIOLATION {sig}: {msg}");
+        }
     }
-    if let Ok(text) = std::str::from_utf8(body) {
-        if let Verdict::Fail { sig, msg } = hvlib::props::c11::zinc_fixed_point_pub(text, &mut rec) {
+    if prop.is_empty() || prop == "C11" {
+        let d = c03::Doc { bytes: body.to_vec(), plan, origin: "zinc-libfuzzer".into() };
+        if let Verdict::Fail { sig, msg } = c11::check_fixpoint_pub(&d, &mut rec) {
             panic!("VIOLATION {sig}: {msg}");
         }
     }
